@@ -11,6 +11,9 @@
       -> ids=<returned GPU id classes in order>                           (pickBestPartialFitByLibrary)
     c16free <ngpus> {key idk total free}* <nrunners> {nil | <n> {idk est}*}*
       -> f1,f2,...   (FreeMemory of every GPU after Scheduler.updateFreeSpace)
+    c16graph <arch> <ctx> <batch> <numParallel> <kvct 0=f16|1=q8_0|2=q4_0> <blocks> <emb> <heads> <headsKV> <klen|-> <vlen|->
+             <vocab> <ffn_gate_exps size|-> <ff> <ffn_gate.0 Shape[1]|-> <ncross> {i}* <ropeFreqs> <sliding> <qkvBias|->
+      -> kv=<a,b,..|-> gp=<partialOffload> gf=<fullOffload>                 (GGML.GraphSize)
     c16load <spread 0|1> <OLLAMA_NUM_PARALLEL> <mllama 0|1> <embed 0|1> <defaultParallel> <n> {p <common>}*
             <ngpus> {keyclass idclass lib free min lkey total}* <nrunners> {<loading 0|1> <n> {id}* <m> {size}*}*
       -> load ids=<ids> free=<adjusted frees> p=<numParallel> | evict | delay
@@ -84,6 +87,22 @@ def pLRunner : TP LRunner := do
   let ids ← listOf nat
   let sizes ← listOf nat
   pure ⟨ld != 0, ids, sizes⟩
+
+def pArch : TP Arch := do
+  let t ← tok
+  pure (match t with
+    | "llama" => .llama
+    | "mllama" => .mllama
+    | "gemma" => .gemma
+    | "gemma2" => .gemma
+    | "gemma3" => .gemma3
+    | "command-r" => .commandR
+    | "qwen2" => .qwen2
+    | "phi2" => .phi2
+    | "stablelm" => .stablelm
+    | "deepseek2" => .deepseek2
+    | "chatglm" => .chatglm
+    | _ => .other)
 
 def commaOrDash (l : List Nat) : String :=
   if l.isEmpty then "-" else joinWith "," (l.map toString)
@@ -159,6 +178,32 @@ def handle (toks : List String) : Option String :=
       pure (match pickFull commonOf np dp (spread != 0) all with
         | none => "nil"
         | some (l, p) => s!"ids={showIds l} p={p}")) rest
+  | "c16graph" :: rest =>
+    runTP (do
+      let arch ← pArch
+      let ctx ← nat
+      let batch ← nat
+      let p ← nat
+      let kvct ← nat
+      let blocks ← nat
+      let emb ← nat
+      let heads ← nat
+      let headsKV ← nat
+      let klen ← optNat
+      let vlen ← optNat
+      let vocab ← nat
+      let exps ← optNat
+      let ff ← nat
+      let g1 ← optNat
+      let cross ← listOf nat
+      let rope ← nat
+      let sliding ← nat
+      let qb ← optNat
+      let m : GMeta := { arch := arch, blocks := blocks, embedding := emb, heads := heads, headsKV := headsKV,
+                         keyLen := klen, valLen := vlen, vocab := vocab, ffnGateExps := exps, ff := ff,
+                         ffnGate1 := g1, cross := cross, ropeFreqs := rope, sliding := sliding, qkvBias := qb }
+      let r := graphSize m ctx batch p kvct
+      pure s!"kv={commaOrDash r.1} gp={r.2.1} gf={r.2.2}") rest
   | "c16load" :: rest =>
     runTP (do
       let spread ← nat
